@@ -2,6 +2,7 @@ package schema
 
 import (
 	"fmt"
+	"sort"
 
 	"github.com/jsightapi/jsight-schema-go-library/bytes"
 	"github.com/jsightapi/jsight-schema-go-library/errors"
@@ -22,6 +23,19 @@ func New() Schema {
 
 func (s Schema) TypesList() map[string]Type {
 	return s.types
+}
+
+// TypeNames returns the names of all types in ascending order.
+// Use it instead of ranging over TypesList when the order of processing is
+// observable (for instance, which of several invalid types gets reported): Go's
+// map iteration order is random.
+func (s Schema) TypeNames() []string {
+	names := make([]string, 0, len(s.types))
+	for name := range s.types {
+		names = append(names, name)
+	}
+	sort.Strings(names)
+	return names
 }
 
 // MustType returns *Schema or panic if not found.
